@@ -4,7 +4,7 @@ BASE = {
     "Method": '{"r0", "r1", "r2", "d0", "d1", "t0", "b0"}',
     "Arg": "{0, 1}",
     "HasDefault": "<-cHasDefault", "HasUnmock": "<-cHasUnmock", "PartialByDef": "<-cPartialByDef",
-    "RetOwned": "<-cRetOwned", "Required": "<-cRequired", "HasMutexApi": True,
+    "RetOwned": "<-cRetOwned", "Required": "<-cRequired", "HasMutexApi": True, "HasStd": True,
     "StrictFam": "<-cStrictBoth", "ScriptFam": "<-cNoScripts", "UpFam": "<-cNoUp", "Vias": "<-cViaDrop",
     "EmitOn": True, "OnlyMentioned": True, "StopAfterDeviation": False, "PermOn": False, "MaxCalls": 3, "MaxLeaves": 2,
 }
@@ -23,6 +23,7 @@ PLANS = {
     "C01": {
         "quick": [("c01q", inst(LeafFam="<-C01LeavesQ", MaxLeaves=2, MaxCalls=3), {"clones": 0}, None)],
         "thorough": [("c01t", inst(LeafFam="<-C01LeavesT", MaxLeaves=2, MaxCalls=4), {"clones": 1}, None),
+                     ("c01n", inst(LeafFam="<-C01LeavesQ", MaxLeaves=2, MaxCalls=3, HasStd=False), {"nostd": True}, None),
                      ("c01t3", inst(LeafFam="<-C01LeavesQ", MaxLeaves=3, MaxCalls=4, Arg="{0, 1, 2}"), {"clones": 0},
                       {"num": 400000, "depth": 8})],
     },
@@ -54,7 +55,9 @@ PLANS = {
     "C08": {
         "quick": [("c08q", inst(LeafFam="<-C08Leaves", MaxLeaves=2, MaxCalls=3, OnlyMentioned=False, Method='{"r0", "r1", "r2", "d0"}',
                                 ScriptFam="<-cNoScripts", UpFam="<-cUpBoth", Vias="<-cViaVerify"), {"clones": 1}, None)],
-        "thorough": [("c08t", inst(LeafFam="<-C08Leaves", MaxLeaves=2, MaxCalls=4, OnlyMentioned=False, Method='{"r0", "r1", "r2", "d0"}',
+        "thorough": [("c08n", inst(LeafFam="<-C08Leaves", MaxLeaves=2, MaxCalls=3, OnlyMentioned=False, Method='{"r0", "r1", "r2", "d0"}',
+                                   ScriptFam="<-cScripts1", UpFam="<-cUpBoth", Vias="<-cViaVerify", HasStd=False), {"nostd": True}, {"num": 60000, "depth": 6}),
+                     ("c08t", inst(LeafFam="<-C08Leaves", MaxLeaves=2, MaxCalls=4, OnlyMentioned=False, Method='{"r0", "r1", "r2", "d0"}',
                                    ScriptFam="<-cScripts1", UpFam="<-cUpBoth", Vias="<-cViaAll"), {"clones": 2}, {"num": 500000, "depth": 8})],
     },
     "C12": {
